@@ -559,7 +559,20 @@ def _top_truths(c, pos=True):
 # ------------------------------------------------------------------------------------------------ A4 reconstruct
 def check_reconstruct(prog, rep, m, r):
     """roles of _reconstruct_path's parameters, decided on its interpretation"""
-    k = interpret(prog, r, strict=False)
+    try:
+        k = interpret(prog, r, strict=False)
+    except AnalysisIncomplete:
+        # the path written through `p = img.ravel()`: a view only when the image is C-contiguous.  An image allocated like
+        # the surface (full_like / zeros_like ...) follows the surface's layout: for a column-major or transposed surface
+        # the alias is a copy and the path never reaches the image the caller gets.
+        from ..sharedrules import flat_alias_of_like
+        for x, alias, base, node, like in flat_alias_of_like(r, prog):
+            rep.add('A4', r, ENTRY, '%s = %s; %s[..] = ...' % (alias, norm(node.value), alias), x.lineno, False,
+                    'the path is written through a flattened alias of `%s`, which is allocated like the input surface (%s): for a '
+                    'column-major or transposed surface the alias is a copy and the path is lost (the image stays NaN)'
+                    % (base, norm(like) if like is not None else 'flatten() always copies'))
+            return None
+        raise
     wl = [L for L in k.loops if L.kind == 'while']
     stores = k.stores
     imgs = {s.arr.name for s in stores}
